@@ -73,13 +73,20 @@ Fixpoint bound_s {A} (G : env) (s : stmt A) : bool :=
 (* stateless consequences of hyp_s at every (nested) statement *)
 Fixpoint local_hyp_s {A} (sigs : list (list farg)) (G : env) (s : stmt A) : bool :=
   match s with
+  | SAssign x _ _ | SReduce x _ _ => wc G x
   | SWin w src _ sb =>
-      Nat.eqb sb (rootG G src)
+      Nat.eqb (rootG G sb) (rootG G src) && wc G src
       && match lookup w G with
          | Some b => (match b_org b with FromWin => true | _ => false end) && Nat.eqb (b_src b) sb
+                     && Nat.eqb (b_root b) (rootG G src)
          | None => false
          end
-  | SCall f args => match nth_error sigs f with Some fs => sites_ok G args fs | None => false end
+  | SCall f args =>
+      match nth_error sigs f with
+      | Some fs => sites_ok G args fs
+                   && forallb (fun a => match arg_name a with Some x => wc G x | None => true end) args
+      | None => false
+      end
   | SIf b1 b2 => forallb (local_hyp_s sigs G) b1 && forallb (local_hyp_s sigs G) b2
   | SFor b => forallb (local_hyp_s sigs G) b
   | _ => true
